@@ -94,7 +94,8 @@ def _schedules(rng, tier, kind, serial_rng_run=True):
     A, B = int(rng.integers(1, 2**31)), int(rng.integers(1, 2**31))
     runs = [
         {"tag": "ref", "P": 1, "sched": None, "gseed": A},
-        {"tag": "repeat", "P": 1, "sched": None, "gseed": A},
+        {"tag": "repeat-same-process", "P": 1, "sched": None, "gseed": A},  # second call inside the reference's process
+        {"tag": "repeat", "P": 1, "sched": None, "gseed": A},  # the same call in another fresh process
     ]
     if serial_rng_run:
         runs.append({"tag": "global-rng", "P": 1, "sched": None, "gseed": B})
@@ -283,7 +284,7 @@ def _case_fit(rng, tier, tie):
     return c
 
 
-def _case_kkext(rng, tier, auto=False):
+def _case_kkext(rng, tier, auto=False, nev=None):
     c = {"kind": "kkauto" if auto else "kkext", "first": "mock"}
     c["spec"] = _mock_spec(rng, ppd_choices=(4, 5) if tier == "quick" else (4, 5, 7, 10))
     if c["spec"]["mock"].startswith("CIRCUIT") and tier == "quick":
@@ -299,8 +300,18 @@ def _case_kkext(rng, tier, auto=False):
     }
     if auto:
         c["opts"]["admittance"] = None if rng.random() < 0.5 else c["opts"]["admittance"]
+    if nev:
+        # fine search: the refinement stage requests extensions that lie ~1e-3 apart (state carried from one evaluation
+        # to the next inside a process - caches keyed by a rounded log F_ext, ... - would show up here)
+        c["opts"]["num_F_ext_evaluations"] = int(nev)
+        c["spec"] = _mock_spec(rng, ppd_choices=(4, 5), idents=MOCK_CDCS + ["CIRCUIT_1", "CIRCUIT_2", "CIRCUIT_5"])
+        c["spec"]["kw"].update(log_max_f=4.0, log_min_f=0.0)
+        c["opts"]["test"] = test = str(rng.choice(["real", "complex", "imaginary"]))
+        c["first"] = "fine-search"
     c["cell"] = f"{test}/{c['opts']['num_F_ext_evaluations']}/{c['opts']['admittance']}"
     c["runs"] = _schedules(rng, tier, "kkext", serial_rng_run=True)
+    if nev and tier == "quick":
+        c["runs"] = [r for r in c["runs"] if r["tag"] != "repeat"][:7]  # ref, same-process repeat, global-rng, 4 pooled
     return c
 
 
@@ -401,6 +412,7 @@ def gen_cases(tier, seed):
             (_case_kkext_cnls, ()), (_case_kkext, ()), (_case_zhit, ("W", "ffa")),
             (_case_zhit, ("W", "ffa")), (_case_zhit, ("W", "afa")),
             (_case_fit, ("constrained",)), (_case_fit, ("constrained",)),
+            (_case_kkext, (False, 100)),
         ]
     else:
         plan = []
@@ -417,6 +429,7 @@ def gen_cases(tier, seed):
                 plan.append((_case_kkext, (True,)))
         plan += [(_case_zhit, ("W", w)) for w in ("ffa", "ffa", "afa", "faa", "aaa", "ffa")]
         plan += [(_case_fit, ("constrained",))] * 5
+        plan += [(_case_kkext, (False, 100))] * 3 + [(_case_kkext, (False, 50))]
         plan += [(_case_cnls, (True,)), (_case_kkext_cnls, ()), (_case_mock, ()), (_case_mock, ())]
     for fn, a in plan:
         add(fn, *a)
@@ -474,7 +487,7 @@ def _constraints(case, run):
 
     if "constraint_variables" not in case:
         return None, None
-    if run is not None and run.get("tag") in ("ref", "repeat"):
+    if run is not None and run.get("tag") in ("ref", "repeat-same-process"):
         if "cv" not in _LIVE:
             _LIVE["ce"] = copy.deepcopy(case["constraint_expressions"])
             _LIVE["cv"] = copy.deepcopy(case["constraint_variables"])
@@ -598,7 +611,7 @@ def _execute(case, data, run, tmp, j):
         sched["ranks"] = _task_ranks(case)
     np.random.seed(int(run["gseed"]) % 2**32)
     before = U.get_default_num_procs() if "override" in run else None
-    out = {"log": log, "override_ok": None}
+    out = {"log": log, "override_ok": None, "pid": os.getpid()}
     t0 = time.time()
     try:
         if "override" in run:
@@ -623,6 +636,55 @@ def _execute(case, data, run, tmp, j):
             out["override_detail"] = [before, out.get("override_seen"), after]
     out["t"] = time.time() - t0
     return out
+
+
+class ChildFailed(RuntimeError):
+    pass
+
+
+def _child_main(conn, case, data, group, tmp):
+    try:
+        _LIVE.clear()
+        outs = [_execute(case, data, run, tmp, j) for j, run in group]
+        conn.send(outs)
+    except BaseException as e:  # harness trouble inside the child: reported to the parent, never a verdict
+        try:
+            conn.send({"child_error": repr(e)[:500]})
+        except Exception:
+            pass
+    finally:
+        conn.close()
+        os._exit(0)
+
+
+def _run_group(case, data, group, tmp):
+    """Execute the runs of `group` (list of (index, run)) one after the other in ONE freshly forked child of this process.
+
+    This (shard) process never executes an analysis itself, so every child starts from the same library state: nothing
+    a previous run left behind in module globals (caches, memos, registries, RNG state) can make two runs agree - or
+    disagree - by accident.  Results come back pickled through a pipe."""
+    import multiprocessing as mp
+
+    ctx = mp.get_context("fork")
+    recv, send = ctx.Pipe(False)
+    proc = ctx.Process(target=_child_main, args=(send, case, data, group, tmp))
+    proc.daemon = False  # the child creates the library's pools
+    proc.start()
+    send.close()
+    try:
+        try:
+            outs = recv.recv()
+        except EOFError:
+            raise ChildFailed(f"run child for {[r['tag'] for _, r in group]} died without a result (exit code {proc.exitcode})")
+        if isinstance(outs, dict):
+            raise ChildFailed(f"run child harness error: {outs.get('child_error')}")
+        return outs
+    finally:
+        recv.close()
+        proc.join(5)
+        if proc.is_alive():
+            proc.kill()
+            proc.join()
 
 
 def _compare(ref, cur):
@@ -742,8 +804,21 @@ def _run_analysis(case, kind, tmp):
     wties = 0
     ref = None
     parent = os.getpid()
+    # groups: a run tagged "repeat-same-process" is executed in the child of the run before it; all others get their own
+    groups = []
     for j, run in enumerate(runs):
-        r = _execute(case, data, run, tmp, j)
+        if run["tag"] == "repeat-same-process" and groups:
+            groups[-1].append((j, run))
+        else:
+            groups.append([(j, run)])
+    executed = {}
+    for g in groups:
+        for (j, _), o in zip(g, _run_group(case, data, g, tmp)):
+            executed[j] = o
+    stats["run_children_forked"] = len(groups)
+    for j, run in enumerate(runs):
+        r = executed[j]
+        parent = r["pid"]
         results.append(r)
         stats[f"{kind}.runs.{run['tag']}"] = stats.get(f"{kind}.runs.{run['tag']}", 0) + 1
         if "constraint_variables" in case:
